@@ -133,6 +133,10 @@ func Subset(level int) []*tv.Package {
 		"type Rec struct {\n\tA uint64\n\tB uint32\n\tC byte\n\tD bool\n\tP Pt\n}",
 		"type Box struct {\n\tV uint64\n\tS []uint64\n\tN *Pt\n}",
 		"type Num uint64",
+		"type Set map[uint64]bool",
+		"type Tab map[string]uint64",
+		"type List []uint64",
+		"type Hook struct {\n\tCb func(uint64) uint64\n\tK uint64\n}",
 	}
 	genExprs(b, level)
 	genConversions(b, level)
@@ -141,6 +145,7 @@ func Subset(level int) []*tv.Package {
 	genScoping(b, level)
 	genData(b, level)
 	genFuncs(b, level)
+	genNamed(b, level)
 	genPrims(b, level)
 	if level > 0 {
 		genCompositions(b)
@@ -351,6 +356,23 @@ func genData(b *builder, level int) {
 	b.add("data/map/string-key", "func FN(m map[string]uint64, k string) uint64 {\n\tm[k] = m[k] + 1\n\treturn m[k]\n}")
 	b.add("data/map/overwrite", "func FN(m map[uint64]uint64, k uint64) {\n\tm[k] = 1\n\tm[k] = 2\n}")
 	b.add("data/map/struct-values", "func FN(k uint64, x uint64) uint64 {\n\tm := make(map[uint64]Pt)\n\tm[k] = Pt{X: x}\n\treturn m[k].X + m[k+1].Y\n}")
+}
+
+func genNamed(b *builder, level int) {
+	b.add("named/map-make-read", "func FN(k uint64) bool {\n\ts := make(Set)\n\treturn s[k]\n}")
+	b.add("named/map-make-commaok", "func FN(k uint64) bool {\n\ts := make(Set)\n\tv, ok := s[k]\n\treturn v || ok\n}")
+	b.add("named/map-string-make", "func FN(k string) uint64 {\n\tt := make(Tab)\n\treturn t[k] + uint64(len(t))\n}")
+	b.add("named/map-param", "func FN(s Set, k uint64) bool {\n\tv, ok := s[k]\n\treturn v && ok\n}")
+	b.add("named/slice-make", "func FN(x uint64) uint64 {\n\tl := make(List, 2)\n\treturn l[0] + l[1] + uint64(len(l)) + x\n}")
+	b.add("named/slice-append", "func FN(l List, x uint64) List {\n\treturn append(l, x)\n}")
+	b.add("named/slice-sub", "func FN(l List) List {\n\tif uint64(len(l)) < 1 {\n\t\treturn l\n\t}\n\treturn l[1:]\n}")
+	b.add("named/slice-take", "func FN(l List) List {\n\tif uint64(len(l)) < 1 {\n\t\treturn l\n\t}\n\treturn l[:1]\n}")
+	b.add("named/slice-range", "func FN(l List) uint64 {\n\tvar s uint64 = 0\n\tfor _, v := range l {\n\t\ts += v\n\t}\n\treturn s\n}")
+	b.add("named/ptr-nil-return", "func FN(x uint64) *Pt {\n\tif x > 3 {\n\t\treturn nil\n\t}\n\treturn &Pt{X: x}\n}")
+	b.add("named/slice-nil-return", "func FN(x uint64) []uint64 {\n\tif x > 3 {\n\t\treturn nil\n\t}\n\treturn []uint64{x}\n}")
+	b.add("named/map-commaok-assign", "func FN(m map[uint64]uint64, k uint64) uint64 {\n\tvar v uint64\n\tvar ok bool\n\tv, ok = m[k]\n\tif ok {\n\t\treturn v\n\t}\n\treturn 7\n}")
+	b.add("named/func-field-call", "func FNdbl(x uint64) uint64 {\n\treturn x * 2\n}\n\nfunc FN(x uint64) uint64 {\n\th := Hook{Cb: FNdbl, K: 1}\n\treturn h.Cb(x) + h.K\n}")
+	b.add("named/func-field-value", "func FNdbl(x uint64) uint64 {\n\treturn x * 2\n}\n\nfunc FN(x uint64) uint64 {\n\th := Hook{Cb: FNdbl, K: 1}\n\tg := h.Cb\n\treturn g(x)\n}")
 }
 
 func genFuncs(b *builder, level int) {
